@@ -33,6 +33,12 @@
 //                             -> ((out...) (slot0 slot1 slot2 slot3)); out = (0 ...) | (1 code) | (2) | (-1);
 //                             the Marshal entries (0 bytes) / (0 bytes1 bytes2) are read from the kept slices
 //                             after the last operation; a Data slice that gets replaced is overwritten.
+//   (11 lsm1 ((ref type len fill)...))   LARGE sample given compactly (payload byte i = fill + 31 i + i/256):
+//                             MarshalBinary, UnmarshalBinary of the result on a fresh sample
+//                             -> (|bytes| adler32(bytes) (0)|(1 code)|(2) ((ref type |payload| adler32)...))
+//   (12 prof compat level lsm1 (spec...) (spec...))   LARGE record, likewise
+//                             -> (|bytes| adler32 <res> ver prof compat level lsm1 (sum...) (sum...))
+//   (13 kind a b)             oracle-only marker for sizes >= 2^24 bytes that are not fed to the model -> (0)
 //   <sdec> = (0 (nalu...)) | (1 code (nalu...)) | (2)            (NALUs appended so far)
 //   <rdec> = (0 ver prof compat level lsm1 (sps...) (pps...)) | (1 code ver ... (pps...)) | (2)
 // Error codes: 1 empty NALU, 2 "requires 6+", 3 "requires 2+ only" (SPS length), 4 "requires n
@@ -47,6 +53,7 @@ package avc
 import (
 	"bytes"
 	"fmt"
+	"hash/adler32"
 	"strings"
 	"sync"
 	"testing"
@@ -620,6 +627,65 @@ func vC12Run(c vSx) (r vC12Res) {
 			}
 			r.bad("record-iso-layout", fmt.Sprintf("library writes %s, ISO 14496-15 5.2.4.1 layout is %s (first difference at byte %d)", vC12Hex(back), vC12Hex(iso), i))
 		}
+	case 11:
+		lsm1 := c.l[1].int()
+		ns := vC12Specs(c.l[2])
+		smp := NewAVCSample(uint8(lsm1))
+		smp.NALUs = vC12Libs(ns)
+		b, err := smp.MarshalBinary()
+		if err != nil {
+			r.obs = vErr(99)
+			r.bad("sample-rt", "marshal failed: "+err.Error())
+			return
+		}
+		d, _ := vC12SampleUnmarshal(lsm1, b)
+		r.obs = vL(vI(len(b)), vU(uint64(adler32.Checksum(b))), vC12ResSx(d.panicked, d.err, true), vC12SumSx(d.nalus))
+		r.bigSample(lsm1, ns, b, d)
+	case 12:
+		rec := vC12Rec{ver: 1, prof: c.l[1].int(), compat: c.l[2].int(), level: c.l[3].int(), lsm1: c.l[4].int(), sps: vC12Specs(c.l[5]), pps: vC12Specs(c.l[6])}
+		b, err := rec.lib().MarshalBinary()
+		if err != nil {
+			r.obs = vErr(99)
+			r.bad("record-rt", "marshal failed: "+err.Error())
+			return
+		}
+		d := vC12RecUnmarshal(NewAVCDecoderConfigurationRecord(), b)
+		x := d.rec
+		r.obs = vL(vI(len(b)), vU(uint64(adler32.Checksum(b))), vC12ResSx(d.panicked, d.err, false), vI(x.ver), vI(x.prof), vI(x.compat), vI(x.level), vI(x.lsm1),
+			vC12SumSx(x.sps), vC12SumSx(x.pps))
+		r.bigRecord(rec, b, d)
+	case 13:
+		r.obs = vOk()
+		r.nontrivial = true
+		switch c.l[1].int() {
+		case 0, 1: // sample with lsm1 = 3 (kind 0) / 2 (kind 1): units of a and b bytes around 2^24 plus small ones
+			lsm1 := 3 - c.l[1].int()
+			ns := []vC12N{{ref: 1, typ: 1, data: vC12Payload(c.l[2].int()-1, 7)}, {ref: 3, typ: 5, data: vC12Payload(c.l[3].int()-1, 9)}, {ref: 0, typ: 6, data: []byte{1}}}
+			smp := NewAVCSample(uint8(lsm1))
+			smp.NALUs = vC12Libs(ns)
+			b, err := smp.MarshalBinary()
+			if err != nil {
+				r.bad("sample-rt", "marshal failed: "+err.Error())
+				return
+			}
+			d, _ := vC12SampleUnmarshal(lsm1, b)
+			r.bigSample(lsm1, ns, b, d)
+		default: // record with a SPS and b PPS of 65535 bytes each
+			rec := vC12Rec{ver: 1, prof: 100, compat: 0, level: 51, lsm1: 3}
+			for i := 0; i < c.l[2].int(); i++ {
+				rec.sps = append(rec.sps, vC12N{ref: 3, typ: 7, data: vC12Payload(65534, i)})
+			}
+			for i := 0; i < c.l[3].int(); i++ {
+				rec.pps = append(rec.pps, vC12N{ref: 3, typ: 8, data: vC12Payload(65534, i+3)})
+			}
+			b, err := rec.lib().MarshalBinary()
+			if err != nil {
+				r.bad("record-rt", "marshal failed: "+err.Error())
+				return
+			}
+			d := vC12RecUnmarshal(NewAVCDecoderConfigurationRecord(), b)
+			r.bigRecord(rec, b, d)
+		}
 	case 10:
 		r.history(c)
 	case 9:
@@ -635,6 +701,81 @@ func vC12Run(c vSx) (r vC12Res) {
 		r.obs = vL(vZ(-1))
 	}
 	return
+}
+
+// ---------- large cases ----------
+func vC12Payload(n, fill int) []byte {
+	if n < 0 {
+		n = 0
+	}
+	b := make([]byte, n)
+	for i := range b {
+		b[i] = byte(fill + 31*i + i/256)
+	}
+	return b
+}
+
+func vC12Specs(s vSx) []vC12N {
+	var out []vC12N
+	for _, x := range s.l {
+		out = append(out, vC12N{ref: x.l[0].int(), typ: x.l[1].int(), data: vC12Payload(x.l[2].int(), x.l[3].int())})
+	}
+	return out
+}
+
+func vC12SumSx(ns []vC12N) vSx {
+	items := []vSx{}
+	for _, n := range ns {
+		items = append(items, vL(vI(n.ref), vI(n.typ), vI(len(n.data)), vU(uint64(adler32.Checksum(n.data)))))
+	}
+	return vLs(items)
+}
+
+func vC12ResSx(panicked bool, err error, sample bool) vSx {
+	switch {
+	case panicked:
+		return vPanicObs()
+	case err != nil:
+		return vErr(vC12Code(err, sample))
+	}
+	return vL(vZ(0))
+}
+
+// statement of C12 for a large sample / record (lengths that cross 2^16 and 2^24)
+func (r *vC12Res) bigSample(lsm1 int, ns []vC12N, b []byte, d vC12SDec) {
+	if d.panicked {
+		r.bad("no-panic", "sample UnmarshalBinary panicked on a large sample")
+		return
+	}
+	if lsm1 < 0 || lsm1 > 3 || !vC12AllInRange(ns, 1<<uint(8*(lsm1+1))-1) {
+		return
+	}
+	r.nontrivial = true
+	total := 0
+	for _, n := range ns {
+		total += 1 + len(n.data)
+	}
+	if want := vC12IsoSample(lsm1, vC12Bytes(ns)); !bytes.Equal(b, want) {
+		r.bad("sample-layout", fmt.Sprintf("length size %d, %d NALUs, %d bytes in total: marshalled %d bytes, the reference writer %d", lsm1+1, len(ns), total, len(b), len(want)))
+	} else if d.err != nil || !vC12NsEq(d.nalus, ns) {
+		r.bad("sample-rt", fmt.Sprintf("length size %d, %d NALUs, %d bytes in total: read back %d NALUs, err %v", lsm1+1, len(ns), total, len(d.nalus), d.err))
+	}
+}
+
+func (r *vC12Res) bigRecord(rec vC12Rec, b []byte, d vC12RDec) {
+	if d.panicked {
+		r.bad("no-panic", "record UnmarshalBinary panicked on a large record")
+		return
+	}
+	if rec.prof > 255 || rec.lsm1 > 3 || len(rec.sps) > 31 || len(rec.pps) > 255 || !vC12AllInRange(rec.sps, 65535) || !vC12AllInRange(rec.pps, 65535) {
+		return
+	}
+	r.nontrivial = true
+	if want := vC12IsoRecord(rec.ver, rec.prof, rec.compat, rec.level, rec.lsm1, vC12Bytes(rec.sps), vC12Bytes(rec.pps)); !bytes.Equal(b, want) {
+		r.bad("record-iso-layout", fmt.Sprintf("%d SPS, %d PPS: marshalled %d bytes, the ISO layout has %d", len(rec.sps), len(rec.pps), len(b), len(want)))
+	} else if d.err != nil || !d.rec.eq(rec) {
+		r.bad("record-rt", fmt.Sprintf("%d SPS, %d PPS, %d bytes: read back %d SPS, %d PPS, err %v", len(rec.sps), len(rec.pps), len(b), len(d.rec.sps), len(d.rec.pps), d.err))
+	}
 }
 
 // ---------- histories ----------
@@ -1391,6 +1532,49 @@ func TestVerifC12(t *testing.T) {
 		}
 		runOne(vL(vZ(3), vI(lsm1), vL(vC12N{ref: 2, typ: 1, data: k.rnd.bytes(edge - 1)}.sx(), vC12N{ref: 0, typ: 9, data: nil}.sx(), vC12N{ref: 3, typ: 5, data: k.rnd.bytes(edge)}.sx())))
 	}
+	// sizes crossing 2^16 (compact cases, also run by the model) and 2^24 (oracle only)
+	spec := func(ref, typ, ln, fill int) vSx { return vL(vI(ref), vI(typ), vI(ln), vI(fill)) }
+	for _, lsm1 := range []int{3, 2} {
+		// one unit of 64 KiB-1 / 64 KiB / more; two large units; several hundred units crossing 64 KiB and 128 KiB in total
+		sizes := []int{65535, 65536, 65537, 70000, 131072, 200000}
+		if !k.thorough() {
+			sizes = []int{65535, 65536, 70000}
+			if lsm1 == 2 {
+				sizes = []int{65536, 65537}
+			}
+		}
+		for _, sz := range sizes {
+			runOne(vL(vZ(11), vI(lsm1), vL(spec(3, 5, sz-1, sz), spec(0, 6, 3, 1))))
+		}
+		if k.thorough() || lsm1 == 3 {
+			runOne(vL(vZ(11), vI(lsm1), vL(spec(1, 1, 66000, 3), spec(2, 1, 65535, 4), spec(3, 5, 70001, 5))))
+		}
+		var many []vSx
+		for i := 0; i < 400; i++ {
+			many = append(many, spec(i%4, i%32, k.rnd.pickInt(0, 1, k.rnd.rng(0, 40), k.rnd.rng(100, 900)), i))
+		}
+		runOne(vL(vZ(11), vI(lsm1), vLs(many)))
+	}
+	{
+		var many []vSx
+		for i := 0; i < 300; i++ { // 2-byte lengths: 300 units of up to 64 KiB-1 in total > 64 KiB
+			many = append(many, spec(i%4, i%32, k.rnd.pickInt(0, 300, 1000, k.rnd.rng(0, 600)), i))
+		}
+		runOne(vL(vZ(11), vZ(1), vLs(many)))
+		runOne(vL(vZ(11), vZ(1), vL(spec(3, 5, 65534, 1), spec(3, 5, 65534, 2), spec(1, 1, 65533, 3))))
+		runOne(vL(vZ(11), vZ(0), vLs(many[:280]))) // 1-byte lengths: units above 255 bytes are out of range
+		// records whose total size crosses 2^16 and 2^17
+		runOne(vL(vZ(12), vZ(100), vZ(0), vZ(40), vZ(3), vL(spec(3, 7, 30000, 1), spec(3, 7, 30000, 2), spec(3, 7, 5534, 3)), vL(spec(3, 8, 2, 4))))
+		runOne(vL(vZ(12), vZ(100), vZ(0), vZ(40), vZ(3), vL(spec(3, 7, 65534, 1), spec(3, 7, 65534, 2)), vL(spec(3, 8, 65534, 4), spec(3, 8, 0, 5))))
+		var pps []vSx
+		for i := 0; i < 255; i++ {
+			pps = append(pps, spec(3, 8, 250+i, i))
+		}
+		runOne(vL(vZ(12), vZ(66), vZ(192), vZ(30), vZ(1), vL(spec(3, 7, 20, 1)), vLs(pps)))
+	}
+	runOne(vL(vZ(13), vZ(0), vI(1<<24+5), vI(70000)))   // 4-byte lengths, a unit above 2^24 bytes
+	runOne(vL(vZ(13), vZ(1), vI(1<<24-1), vI(65536)))   // 3-byte lengths, the largest unit 2^24-1
+	runOne(vL(vZ(13), vZ(2), vZ(31), vZ(255)))          // record of 31 + 255 sets of 65535 bytes: 18.7 MB > 2^24
 	// histories aimed at state carried between calls and at results sharing storage
 	hist := func(ops ...vSx) { runOne(vL(vZ(10), vLs(ops))) }
 	for _, n := range []int{0, 1, 2, 7, 300} {
